@@ -45,6 +45,11 @@ PROGRAMS = [
   ('flags', '@Engine("sqlite");\n@DefineFlag("who", "world");\n@DefineFlag("greeting", "hello ${who}");\nT(FlagValue("greeting"), "${who}!");\n', ['T'], None),
   ('incantation', '@Engine("sqlite");\n# ' + INCANT + '\nF(x) = x + 1;\nT(y) :- y == 2 * F(1);\n', ['T'], None),
   ('fun_sensitive', '@Engine("sqlite");\nF(x) = x + 1;\nT(y) :- y == 2*F(1);\nU(x ---y) :- x == 1, y == 2 | x == 2, y == 1;\n', ['T', 'U'], None),
+  # the same predicate names in different roles (injectible / limited / @NoInject / distinct / function with a body): whatever one compilation
+  # remembers per predicate NAME must not reach the next program
+  ('twin_plain', '@Engine("sqlite");\nA(1, 2); A(2, 3); A(3, 1);\nP(x, y) :- A(x, y);\nQ(x) :- P(x, y), y > 1;\nF(x) = x + 1;\nR(x) :- Q(x);\nT(x, F(x)) :- Q(x), P(x, z), R(x);\n', ['T', 'Q'], None),
+  ('twin_annotated', '@Engine("sqlite");\nA(1, 2); A(2, 3); A(3, 1);\nP(x, y) order_by("col0 desc") limit(2) :- A(x, y);\n@NoInject(Q);\nQ(x) distinct :- P(x, y), y > 1;\nF(x) = y * 2 :- A(x, y);\n@Ground(R);\nR(x) :- Q(x);\nR(x) :- A(x, x);\n'
+   'T(x, F(x)) :- Q(x), P(x, z), R(x);\n', ['T', 'Q'], None),
   ('bigquery', '@Engine("bigquery");\nA(1, [1, 2]); A(2, [3]);\nT(x, y) :- A(x, l), y in l;\nS(x? ArgMax= y -> x) distinct :- T(x, y);\n', ['T', 'S'], None),
 ]
 
